@@ -102,7 +102,7 @@ func FieldCase(r *rand.Rand, name string, o FieldOpts) *Case {
 	}
 	needIgnoreCase, needIgnoreMissing, needIgnoreUnexported := false, false, false
 	nf := 3 + r.Intn(5)
-	kinds := []string{"same", "same", "rename", "recase", "nested", "nestedptr", "automap", "whole", "method", "ignore", "missing", "unexported", "exactwins", "exactmethod", "sourceonly"}
+	kinds := []string{"same", "same", "rename", "recase", "nested", "nestedptr", "automap", "whole", "method", "ignore", "missing", "unexported", "exactwins", "exactmethod", "sourceonly", "allmissing"}
 	for i := 0; i < nf; i++ {
 		kind := kinds[r.Intn(len(kinds))]
 		base := fmt.Sprintf("F%c", 'a'+i)
@@ -273,6 +273,18 @@ func FieldCase(r *rand.Rand, name string, o FieldOpts) *Case {
 			tn := fname(usedT, base+"Miss")
 			usedS[strings.ToLower(tn)] = true
 			tStruct.Fields = append(tStruct.Fields, F(tn, tt))
+			needIgnoreMissing = true
+		case "allmissing":
+			// every field of an inline unnamed struct (map value / slice element) lacks a source: all skipped
+			nm := fname(usedS, base+"AllMiss")
+			usedT[strings.ToLower(nm)] = true
+			if r.Intn(2) == 0 {
+				sStruct.Fields = append(sStruct.Fields, F(nm, Map(Basic("string"), Struct(F("A", Basic("int"))))))
+				tStruct.Fields = append(tStruct.Fields, F(nm, Map(Basic("string"), Struct(F("B", Basic("int"))))))
+			} else {
+				sStruct.Fields = append(sStruct.Fields, F(nm, Slice(Struct(F("A", Basic("int"))))))
+				tStruct.Fields = append(tStruct.Fields, F(nm, Slice(Struct(F("B", Basic("int")), F("C", Basic("string"))))))
+			}
 			needIgnoreMissing = true
 		case "unexported":
 			tn := "u" + fname(usedT, base+"hidden")
